@@ -230,6 +230,10 @@ func c09Fingerprint(snap simapi.Snapshot, sets []string) []string {
 
 var c09Safety = []func(*mon.View, mon.Stats) []mon.Violation{mon.CheckC03, mon.CheckC04, mon.CheckC05, mon.CheckC07, mon.CheckC10, mon.CheckC12, mon.CheckC13, mon.CheckC06}
 
+// c09NilOnError: the target reconcile runs under the generated fakes' convention for failed calls (nil object
+// next to the error) instead of the real typed clients' (zero-valued object); retry closures look at that object.
+var c09NilOnError bool
+
 // c09Execute builds the prefix, runs the target reconcile through the worker path with the
 // given fault, then the event-driven recovery loop to quiescence.
 func c09Execute(w *world.World, seed int64, e c09Entry, f1, f2 *simapi.Fault) *c09Run {
@@ -294,7 +298,9 @@ func c09Execute(w *world.World, seed int64, e c09Entry, f1, f2 *simapi.Fault) *c
 	// a conflict is followed by the informer catching up while the reconcile is still in its retry loop
 	// (the only situation in which such a retry can succeed)
 	w.CatchUp = f1 != nil && f1.Kind == "conflict"
+	w.Srv.NilOnError = c09NilOnError
 	out.Target = w.WorkerStep()
+	w.Srv.NilOnError = false
 	w.CatchUp = false
 	observe(out.Target)
 	w.Srv.ClearFaults()
@@ -561,6 +567,14 @@ func runC09(ctx *Ctx) *Result {
 						continue
 					}
 					check(run, f, f.String(), true)
+					if i < len(directed) && !strings.HasPrefix(mode, "crash") {
+						c09NilOnError = true
+						runN := c09Execute(w, seed, e, f, nil)
+						c09NilOnError = false
+						res.Stats["single_fault_runs_nil_object_convention"]++
+						res.sig(e.Name + f.String() + "/nil")
+						check(runN, f, f.String()+" (failed calls return nil objects, as the generated fakes do)", true)
+					}
 					// pairs: a second fault in the retry
 					if run.Target.Err != nil || run.Target.Crash {
 						var retry *world.Record
@@ -707,7 +721,7 @@ func diffLines(a, b []string) string {
 func init() {
 	nd := len(c09Directed())
 	register(&Check{Prop: "C09", Level: "fault_enumeration",
-		Rule:   fmt.Sprintf("corpus of (prefix -> target reconcile) pairs: %d directed entries (fresh set with claims, template change, rollback/renumber, slot scale-in, failed-pod replacement, history truncation, adoption/release/identity update, migrated-revision label sync + adoption; both policies) plus sampled hostile scenarios; the fault-free twin yields the call identities of the target reconcile; then EVERY identity x applicable error kind (server error, timeout, conflict, not-found, already-exists; consistent faults) x {before, applied-then-error, process death before, process death after} is injected into the target reconcile run through the real worker path; second faults in the retry reconcile are enumerated (thorough, directed corpus) or sampled; after the fault the event-driven loop (ordered cache delivery -> real handlers -> virtual-time queue -> processNextWorkItem) runs to quiescence; oracles: failure reported (retry scheduled), recovery (quiescent, converged, final state equal to the twin on the spec-determined components, no key failing 30 times in a row), harmlessness (safety monitors C03-C07, C10, C12, C13 armed on the partial work); distinct = distinct (entry, fault plan)", nd),
+		Rule:   fmt.Sprintf("corpus of (prefix -> target reconcile) pairs: %d directed entries (fresh set with claims, template change, rollback/renumber, slot scale-in, failed-pod replacement, history truncation, adoption/release/identity update, migrated-revision label sync + adoption; both policies) plus sampled hostile scenarios; the fault-free twin yields the call identities of the target reconcile; then EVERY identity x applicable error kind (server error, timeout, conflict, not-found, already-exists; consistent faults) x {before, applied-then-error, process death before, process death after} is injected into the target reconcile run through the real worker path; for the directed entries every non-crash fault also under the generated fakes' convention for failed calls (nil object instead of a zero-valued one); second faults in the retry reconcile are enumerated (thorough, directed corpus) or sampled; after the fault the event-driven loop (ordered cache delivery -> real handlers -> virtual-time queue -> processNextWorkItem) runs to quiescence; oracles: failure reported (retry scheduled), recovery (quiescent, converged, final state equal to the twin on the spec-determined components, no key failing 30 times in a row), harmlessness (safety monitors C03-C07, C10, C12, C13 armed on the partial work); distinct = distinct (entry, fault plan)", nd),
 		Assume: append([]string{"crash points are 'before call k' and 'after call k was applied': the controller keeps no state between API calls, so these exhaust the externally distinguishable crash points", "environment chaos stops before the fault so both twins see the same world; the kubelet is co-operative during recovery", "a consistent NotFound is only injected on pods and on revision deletes (elsewhere the final state differs trivially)"}, simAssumptions...),
 		Cases:  func(t string) int { return nd + scenarioCases(120, 2400)(t) },
 		Run:    runC09,
